@@ -29,10 +29,12 @@ theorem bias_eq {s s' : S} (h : s.hasBias = s'.hasBias) : bias s = bias s' := by
 
 theorem NonEmpty.facts1 {s : S} (h : NonEmpty s) (hwf : WF "Conv1d" s) : 1 ≤ k s 0 ∧ 1 ≤ o s 2 := by
   simp only [WF, if_true] at hwf
+  obtain ⟨hk, ho, _⟩ := hwf
   exact ⟨h.kernel_size 0 (by omega), h.output_shape 2 (by omega)⟩
 theorem NonEmpty.facts2 {s : S} (h : NonEmpty s) (hwf : WF "Conv2d" s) :
     1 ≤ k s 0 ∧ 1 ≤ k s 1 ∧ 1 ≤ o s 2 ∧ 1 ≤ o s 3 := by
   simp only [WF, String.reduceEq, if_false, if_true] at hwf
+  obtain ⟨hk, ho, _⟩ := hwf
   exact ⟨h.kernel_size 0 (by omega), h.kernel_size 1 (by omega), h.output_shape 2 (by omega),
     h.output_shape 3 (by omega)⟩
 
@@ -123,12 +125,13 @@ macro "poly_laws" "[" ds:Lean.Parser.Tactic.simpLemma,* "]" : tactic => `(tactic
       | intro_nonempty
     simp only [$ds,*]
     positivity
-  · intro s s' hv h _ _ _
+  · intro s s' hv h hg _ _
     intro_size
     simp only [$ds,*]
     try rw [eb]
     try rw [ewp]
     try rw [eip]
+    try rw [← hg rfl]      -- unconstrained patterns: `groups` is held fixed
     gcongr))
 
 set_option hygiene false in
@@ -140,7 +143,7 @@ macro "poly_bit_laws" "[" ds:Lean.Parser.Tactic.simpLemma,* "]" : tactic => `(ta
   have hwp := h.w_precision; have hip := h.in_precision
   have vwp' := le_trans vwp hwp; have vip' := le_trans vip hip
   simp only [$ds,*, k, o, ← h.kernel_size, ← h.output_shape, ← h.in_channels, ← h.out_channels,
-    ← h.in_features, ← h.out_features]
+    ← h.in_features, ← h.out_features, ← h.groups]
   simp only [k, o] at vk0 vk1 vo2 vo3
   gcongr))
 
@@ -379,7 +382,7 @@ set_option hygiene false in
 macro "bits_inv" "[" ds:Lean.Parser.Tactic.simpLemma,* "]" : tactic => `(tactic| (
   intro s s' h
   simp only [$ds,*, k, o, bias, ← h.kernel_size, ← h.output_shape, ← h.in_channels, ← h.out_channels,
-    ← h.in_features, ← h.out_features, ← h.hasBias]))
+    ← h.in_features, ← h.out_features, ← h.hasBias, ← h.groups]))
 
 theorem opsConv1d_bits : ∀ s s', BitsLe s s' → opsConv1d s = opsConv1d s' := by
   bits_inv [opsConv1d, paramsConv1d]
